@@ -31,7 +31,8 @@ ASSUMPTIONS = ['a listing unit wider than one byte is the little- or big-endian 
 GEN = {
     'g_macinc': ('\tcpu z80\nm\tmacro x\n\tld a,x\n\tdb x,x,x,x,x,x,x,x,x\n\tendm\n\torg 100h\n\tm 1\n\tinclude "i2.inc"\n\tphase 8000h\nl1:\tjp l1\n\tdephase\n\trept 2\n\tnop\n\tendm\n'
                  '\tdb 1,2,3,4,5,6,7,8,9,10\nval\tequ 1234h\n\tshared val,l1\n', {'i2.inc': '\tnop\n\tm 2\n'}),
-    'g_segs': ('\tcpu 8051\n\torg 30h\nstart:\tmov a,#1\n\tsegment data\n\torg 40h\nbuf:\tdb ?\n\tsegment xdata\n\torg 1000h\nxb:\tdb 1,2,3\n\tsegment code\n\tljmp start\n\tshared start,buf,xb\n', {}),
+    'g_segs': ('\tcpu 8051\n\torg 30h\nstart:\tmov a,#1\n\tsegment data\n\torg 40h\nbuf:\tdb ?\n\tsegment xdata\n\torg 1000h\nxb:\tdb 1,2,3\n\tsegment code\n\tljmp start\n\tshared start,buf,xb\n'
+               'bi\tbit 50\n\tjnb bi,$\n\tsegment bitdata\n\torg 51\nb2:\tdb ?\n\tsegment code\n', {}),
     'g_pic': ('\tcpu 16c84\n\torg 10\nl:\tmovlw 5\n\tdata 1,2,3,4,5,6,7,8,9\n\tgoto l\ncnt\tequ 77\n\tshared cnt,l\n', {}),
     'g_pad': ('\tcpu 68000\n\torg $1000\n\tdc.b 1\nw:\tdc.w $1234\n\tdc.b 1,2,3\nl:\tdc.l $11223344,w\n\tmove.l #l,d0\n\tshared w,l\n', {}),
     'g_phase2': ('\tcpu z80\n\torg 100h\n\tdb 1\n\tphase 8000h\np1:\tdb 2,3\n\tphase 9000h\np2:\tdb 4\n\tdephase\np3:\tdb 5\n\tdephase\np4:\tdb 6\n\tshared p1,p2,p3,p4\n', {}),
@@ -103,14 +104,17 @@ def parse_listing(text, radix):
 
 def unit_tokens(rest, radix=16):
     """leading code units of a listing line: blank-separated tokens that are numbers of a full unit width in the list radix"""
-    ok = {width(k, radix) for k in (1, 2, 4)}
+    wd = {width(k, radix): k for k in (4, 2, 1)}
+    ok = set(wd)
     out = []
     for tok in re.split(r'( +|\t)', rest):
         if tok == '' or tok.isspace():
             if '\t' in tok or len(tok) > 1:
                 break
             continue
-        if len(tok) in ok and parse_int(tok, radix) is not None:
+        # a code unit is a number of full unit width whose value fits the unit (`NONE`, the annotation of MACEXP_OVR, has the
+        # width of a word in radix 29 and only digits of that radix, but not a 16-bit value)
+        if len(tok) in ok and parse_int(tok, radix) is not None and parse_int(tok, radix) < 256 ** wd[len(tok)]:
             out.append(tok)
         else:
             break
